@@ -6,7 +6,7 @@ PID = "C09"
 GEN = []
 LEAN = ["Ymq.Props.C09"]
 AUDIT = "Ymq.Audit.C09"
-THEOREMS = ["Ymq.C09.step_gcd", "Ymq.C09.gcd_internal_spec", "Ymq.C09.big_gcd_spec",
+THEOREMS = ["Ymq.C09.reduce64_inv", "Ymq.C09.step_gcd", "Ymq.C09.gcd_internal_spec", "Ymq.C09.big_gcd_spec",
             "Ymq.C09.inv_mod_spec_partial"]
 PROFILES = ["release", "chk"]
 TIMEOUT = 20.0
@@ -314,7 +314,11 @@ def cases(tier, rng, extended=False):
 
 
 def corpus_case(line):
-    c = Case(line)
+    # "@chk <request>": outside the supported range, only the checked profile is compared with the model
+    if line.startswith("@chk "):
+        c = Case(line[5:], o=False, profiles=["chk"], tag="oversize")
+    else:
+        c = Case(line)
     _load_traces([c])
     return c
 
